@@ -156,7 +156,8 @@ class RoleEval:
             return t[1]
         if k == "binop" and t[1] in ("+", "-", "*"):
             a, b = self.eval_term(t[2], env), self.eval_term(t[3], env)
-            if isinstance(a, (int, float)) and isinstance(b, (int, float)) and not isinstance(a, bool) and not isinstance(b, bool):
+            if isinstance(a, (int, float)) and isinstance(b, (int, float)):
+                a, b = (int(a) if isinstance(a, bool) else a), (int(b) if isinstance(b, bool) else b)
                 return a + b if t[1] == "+" else (a - b if t[1] == "-" else a * b)
             return UNKNOWN
         if k == "phi":
